@@ -31,7 +31,11 @@ def shared_type_family():
     texts = [[] for _ in range(12)]
     for n, d in enumerate(decls):
         texts[n % 12].append("%s v%d; %s *p%d; %s a%d[2]; %s fn%d(%s);" % (d, n, d, n, d, n, d, n, d))
-    return ["\n".join(t) + "\n" + PLAIN_USES % i for i, t in enumerate(texts)] + [PLAIN_USES % 99]
+    # unnamed structures, unions and enumerations: the compilation numbers them (synthetic tags) — per tree, not per compilation
+    anon = ["struct { int a; double b; } va; union { int i; float f; } ua; int plain_a;",
+            "typedef struct { int x; int y; } point_t; enum { RED, GREEN } colour; point_t origin; struct named { struct { int in; }; long tail; } nb;",
+            "enum { A0, A1 } e0; struct { struct { int deep; } inner; } outer; void g(void) { struct { int l; } loc; loc.l = outer.inner.deep + e0; }"]
+    return ["\n".join(t) + "\n" + PLAIN_USES % i for i, t in enumerate(texts)] + anon + [PLAIN_USES % 99]
 
 
 def run(chk, only=None):
